@@ -697,7 +697,7 @@ def run_program(prog):
 
 def run_op(g, op):
     name = op["op"]
-    if name in ("evaluate", "validate", "keys", "explain", "transform"):
+    if name in ("evaluate", "validate", "keys", "explain", "transform", "fingerprint"):
         return run_eval_op(g, op)
     try:
         if name == "register":
@@ -780,6 +780,8 @@ def run_eval_op(g, op):
                 r = ["ok", canon_keys(obj.keys(o))]
             elif name == "explain":
                 r = ["ok", canon_keys(obj.explain(o))]
+            elif name == "fingerprint":
+                r = ["ok", enc(json.loads(obj.fingerprint(o)))]
             else:
                 r = ["ok", enc(obj.transform(dec(op["x"]), o))]
         except RecursionError:
